@@ -94,8 +94,11 @@ def run_model(ctx, name, blocks, max_n, classes, switch_in=True, vias=("node", "
     if missing and len(ctx.violations) == before:
         # (walks end at a divergence: with unexplained divergences the outcome histogram says nothing)
         raise ToolError(f"vacuity: {name}: the real store never produced {missing}")
-    if not sample and rep["covered"] + rep["div_count"] < rep["edges"]:
-        # transitions behind a diverging one are not replayed; everything else must be covered
+    if not sample and rep["covered"] < rep["edges"]:
+        # transitions out of states that are only reachable through a diverging (known-finding) transition are
+        # not replayed; without divergences everything must be covered
+        if rep["div_count"] == 0:
+            raise ToolError(f"{name}: only {rep['covered']} of {rep['edges']} transitions replayed")
         ctx.notes.setdefault("uncovered_behind_divergences", {})[name] = rep["edges"] - rep["covered"]
     ctx.notes.setdefault("c13", {})[name] = {
         "groups": blocks, "max_slices": max_n, "classes": len(classes), "scenarios": rep.get("scenarios"),
